@@ -78,6 +78,7 @@ fn c04_paired_feeders_record_differences() {
     let which: u8 = kani::any::<u8>() % 3;
     let tag0: usize = kani::any();
     kani::assume(tag0 <= 1000);
+    loose_hints();
     let mut p = raw_paired_f64(tagged(tag0));
     match which {
         0 => {
